@@ -298,3 +298,9 @@ package httpserver
 //@   ensures [root_matches_all] (base == "/" || base == "") ==> result
 //@   ensures [prefix_of_normalised_sensitive] (base != "/" && base != "" && CaseSensitivePath) ==> result == strings.HasPrefix(norm(p), norm(base))
 //@   ensures [prefix_of_normalised_folded] (base != "/" && base != "" && !CaseSensitivePath) ==> result == strings.HasPrefix(strings.ToLower(norm(p)), strings.ToLower(norm(base)))
+
+//@ unit mitm_heuristics props=C19 filter=`rawHelloInfo\)\.(looksLike[A-Za-z]+|advertisesHeartbeatSupport)$|httpserver\.(assertPresenceAndOrdering|hasGreaseCiphers)$`
+//@ // zero-annotation safety sweep: only the generated run-time-check obligations (index, slice, division, explicit panic)
+//@ func assertPresenceAndOrdering
+//@   loop 1 invariant j >= 0
+//@   loop 2 invariant j >= 0
